@@ -183,6 +183,29 @@ def gen_unit_bound_case(rng, k):
     return c
 
 
+def pinned_cases():
+    """regression cases that must be in EVERY run whatever the seed (each was once the only thing that exposed a
+    seeded change): several bound(...) attributes on one item whose predicates are all needed"""
+    out = []
+
+    def mk(decl, trait, params, formatted, note):
+        c = BCase()
+        c.k = len(out)
+        c.decl, c.trait, c.params, c.formatted, c.notes = decl, trait, params, set(formatted), ["pinned", "pinned:" + note]
+        out.append(c)
+    mk('#[derive(derive_more::Display)] #[display("{}{}", &_0, &_1)] #[display(bound(T: core::fmt::Display))] '
+       '#[display(bound(U: core::fmt::Display))] pub struct Ty<T, U>(pub T, pub U);', "Display", ["T", "U"], "TU", "two-bound-attrs")
+    mk('#[derive(derive_more::Display)] #[display(bound(T: core::fmt::Display))] #[display("{}{}{}", &_0, &_1, &_2)] '
+       '#[display(bounds(U: core::fmt::Display))] #[display(bound(V: core::fmt::Display))] pub struct Ty<T, U, V>(pub T, pub U, pub V);',
+       "Display", ["T", "U", "V"], "TUV", "three-bound-attrs-around-fmt")
+    mk('#[derive(derive_more::Debug)] #[debug(bound(T: core::fmt::Debug))] #[debug(bound(U: core::fmt::Debug))] '
+       '#[debug("{:?}{:?}", &a, &b)] pub struct Ty<T, U> { a: T, b: U }', "Debug", ["T", "U"], "TU", "two-bound-attrs-debug")
+    mk('#[derive(derive_more::LowerHex)] #[lower_hex(bound(T: core::fmt::LowerHex))] #[lower_hex(bounds(U: core::fmt::LowerHex))] '
+       'pub enum Ty<T, U> { #[lower_hex("{:x}", &_0)] A(T), #[lower_hex("{:x}", &_0)] B(U) }', "LowerHex", ["T", "U"], "TU",
+       "two-bound-attrs-enum")
+    return out
+
+
 def gen_case(rng, k):
     if rng.random() < 0.04:
         return gen_unit_bound_case(rng, k)
